@@ -341,6 +341,12 @@ def gen_consts():
     pwf_calls = [ast.unparse(n.func) for n in ast.walk(d.func("parse_with_formats")) if isinstance(n, ast.Call)]
     emit("/-- date.py parse_with_formats calls `_check_strict_parsing` -/\ndef pwfChecksStrict : Bool := " + lbool(any("_check_strict_parsing" in c for c in pwf_calls)))
 
+    # parse_with_formats: is a missing year filled in before the missing month / day are completed? (line order of the two steps)
+    pwf = d.func("parse_with_formats")
+    ln_year = [n.lineno for n in ast.walk(pwf) if isinstance(n, ast.Call) and getattr(n.func, "attr", "") == "replace" and any(k.arg == "year" for k in n.keywords)]
+    ln_day = [n.lineno for n in ast.walk(pwf) if isinstance(n, ast.Call) and ast.unparse(n.func).endswith(("set_correct_day_from_settings", "set_correct_month_from_settings"))]
+    emit("/-- date.py parse_with_formats: the current year is filled in before the missing month / day are completed -/\ndef pwfYearFirst : Bool := " + lbool(bool(ln_year) and bool(ln_day) and max(ln_year) < min(ln_day)))
+
     ps = Src("dateparser/parser.py")
     init_src = ast.unparse(ps.func("_parser.__init__"))
     emit("/-- parser.py _parser.__init__: a displaced numeric token fills one unresolved attribute (popped), not every one of them -/\ndef unknownFillOnce : Bool := " + lbool(".pop(" in init_src[init_src.find("get_unresolved_attrs"):]))
